@@ -144,15 +144,21 @@ def check_who(ctx: Context, rep, rule: str) -> None:
            construct=f"direct constructions: {direct}",
            message="writer classes are only instantiated through the "
            "get_shard_writer table")
+    from sa.rules.common import interproc
     cfg = ctx.cfg(new_shard)
-    tf = TagFlow(cfg, {}, hook=fresh_hook(ctx, new_shard))
-    fis = cfg.calls(lambda c: ctx.is_call(new_shard, c, "file_info.FileInfo"))
-    ok = bool(fis) and all(
-        "fresh" in tf.tags_at(n, ctx.arg(n.ast, 0, "file_path"))
-        for n in fis)
+    tf = TagFlow(cfg, {}, hook=interproc(
+        ctx, lambda f: fresh_hook(ctx, f))(new_shard))
+    shards = cfg.calls(lambda c: any(
+        t.kind == "class" and t.cls.fq == "sedpack.io.shard.shard.Shard"
+        for t in ctx.res.resolve_call(new_shard, c, count=False)))
+    ok = bool(shards) and all(
+        "fresh" in tf.tags_at(n, ctx.arg(n.ast, 0, "shard_info"))
+        for n in shards)
     rep.ob(rule, ok, loc=new_shard.loc(), where=new_shard.qualname,
-           construct="FileInfo(file_path=<split>/<subdir>/<uuid4>.<type>)",
-           message="every new shard gets a name derived from uuid4()")
+           construct="Shard(shard_info=<FileInfo(<split>/<subdir>/<uuid4>."
+           "<type>)>)",
+           message="every new shard gets a file name derived from uuid4() "
+           "(followed through helpers)")
     si = ctx.fn(shard_init)
     ok = any(ctx.is_call(si, c, "get_shard_writer.get_shard_writer") and
              "_get_full_path" in ast.unparse(ctx.arg(c, 1, "shard_file") or
@@ -277,20 +283,30 @@ def check_order(ctx: Context, rep, rule: str) -> None:
         "on the CFG, normal edges): Shard.close, close_shard, "
         "DatasetFiller.__exit__, ShardsList.write_config, merge_shard_infos, "
         "DatasetWriting.write_config, write_multiprocessing, Dataset.create")
+    from sa.norm import expand
+    from sa.rules.common import reaches
+    HASH = f"{UTILS}:hash_checksums"
     sc = ctx.fn("sedpack.io.shard.shard:Shard.close")
+
+    def hashes(n: Node, fn=sc) -> bool:
+        return n.kind == "call" and reaches(ctx, fn, n.ast, HASH)
+
     must_precede(ctx, rep, rule, sc,
                  call_pred(ctx, sc, method="close", recv="_shard_writer"),
-                 call_pred(ctx, sc, method="_compute_file_hash_checksums"),
-                 "Shard.close: writer.close() -> hash")
-    must_precede(ctx, rep, rule, sc,
-                 call_pred(ctx, sc, method="_compute_file_hash_checksums"),
+                 hashes, "Shard.close: writer.close() -> hash")
+    must_precede(ctx, rep, rule, sc, hashes,
                  lambda n: n.kind == "stmt" and isinstance(n.ast, ast.Return),
                  "Shard.close: hash -> return shard_info")
     hs = [n for n in sc.body_nodes() if isinstance(n, ast.Assign) and
-          "hash_checksums" in ast.unparse(n.targets[0])]
-    rep.ob(rule, len(hs) == 1 and "_compute_file_hash_checksums" in
-           ast.unparse(hs[0].value) if hs else False, loc=sc.loc(),
-           where=sc.qualname, construct=short(hs[0], 80) if hs else "<none>",
+          ast.unparse(n.targets[0]).endswith(".hash_checksums")]
+    ok_hs = len(hs) == 1 and any(
+        isinstance(c, ast.Call) and reaches(ctx, sc, c, HASH)
+        for c in ast.walk(expand(sc, hs[0].value)))
+    # the path hashed is the shard's own file
+    hcalls = [c for c in ast.walk(sc.node) if isinstance(c, ast.Call) and
+              ctx.is_call(sc, c, "utils.hash_checksums")]
+    rep.ob(rule, ok_hs, loc=sc.loc(), where=sc.qualname,
+           construct=short(hs[0], 80) if hs else "<none>",
            message="the digest of the closed file is stored in the shard's "
            "file info")
     cs = ctx.fn(f"{FILLER}:_DatasetFillerContext.close_shard")
